@@ -59,6 +59,20 @@ CLAIMED = {
             'vh/alpha.py (exact classification with fractions / exact float comparison) and the band definition '
             '16*eps*(k+2)*max(|a0|,|v|,h).',
             '5/C02'),
+    'C01': ('TLA+ lattice model of Cartesian regions (Grid2D.tla / CartRegion.tla; Build mirrors _build_bitmask_vec) '
+            'model-checked by TLC over all small regions; every abstract region built through the public constructors '
+            'and probed at every position class; per-point observations validated by TLC (TraceCartRegion)',
+            'TLC checks Partition, LookupIsContainment, BoundaryOpens, MapIsBijective for every bounding-box-tight cell '
+            'subset of lattices up to 3x2 (quick) / 3x3 (thorough, 7 016 configurations) with flags and three cell orders, '
+            'quantifying over all 30x30 position classes; the model with the repaired one-row/one-column defect re-created '
+            'must be refuted. Each abstract region is concretised on an anchor/spacing table, built by from_origins or '
+            'polygons+mask, and probed at every class on both axes and beyond the box; index lookup, get_masked, '
+            'filter_spatial and spatial_counts are recorded per point with exact classes and TLC accepts a region trace '
+            'only if every observation lies in the admissible set and the four operations agree. Random 40x40 lattices '
+            'with holes/flags and the shipped NZ and global (2/1 degree) regions are traced the same way.',
+            'Float-level claim by boundary-directed sampling. Trusted: vh/alpha.py, the cell map computed from the '
+            'constructor inputs. California / Italy template regions cannot be loaded in this sandbox (emptied XML).',
+            '5/C01'),
 }
 
 NOT_YET = 'check not built yet in this round (specification planned in DESIGN.md section 5); not claimed until it exists'
